@@ -23,3 +23,5 @@ for n in $names; do
   echo "$n ->$res"
 done
 tools/build.sh >/dev/null 2>&1
+# the evidence files written while a seeded change was applied describe that tree, not the real one
+git -C "$PWD" checkout -- evidence 2>/dev/null
